@@ -47,3 +47,77 @@ Proof.
   intros now ar Hnow Hall. exact (restart_succeeds h ops now ar Hfix Hops Hnow Hall).
 Qed.
 Print Assumptions C14_head_atomic.
+
+(* ---- no record still on disk is skipped across stop / restart cycles ---------------------------
+   Ghost state as in C13 ([greach], [g_got], [g_sync], [g_cr], [g_hist], [g_mono]); in addition
+   [g_saved g] = ([g_got], [g_sync]) of the reader at the moment the head file received its current
+   content (set exactly when a save, a close, or a save that dies after its rename writes the head
+   file - see the last three clauses).
+
+   PARTIAL: proved under [g_mono g = true] (every new file name positive and above all earlier ones;
+   false only in the two corner cases refuted in C13.v) and for records of line modes without
+   embedded newlines.
+
+   (1) In every reachable state - after any number of reads, saves, crashes inside a save at any
+       file-system step, process deaths between operations, restarts, interleaved with writes,
+       pruning and external deletions - a reader that follows the log ([g_sync]) has been handed,
+       file by file in writing order, a prefix of each file's records; the prefix is the whole file
+       for every file before its position that is still on disk: nothing on disk has been skipped.
+   (2) A reader restarted with head=... (head file present) is such a reader whenever the saved one
+       was, and what counts as already delivered to it is exactly what had been delivered at the
+       moment of the last completed save, restricted to files up to the saved file: records read
+       after that save are not counted (they may be delivered again), nothing else is forgotten or
+       invented.
+   (3) [g_saved] follows the head file: a completed save records the saver's state; a save that dies
+       records it iff the rename had happened. *)
+Theorem C14_no_skip_partial :
+  forall (h : hdr) (ops : list op) (o : bool),
+    fixn_of h = true -> fixr_of h = true -> ops_okg h ops ->
+    let s := fst (greach h ops) in let g := snd (greach h ops) in
+    (g_mono g = true -> g_sync g o = true -> forall r, get s o = Some r ->
+     exists taken cur,
+       g_got g o = flat_map (fun e => tag (fst e) (firstn (taken (fst e)) (chunks (sfs s) (snd e)))) (g_cr g) /\
+       (forall n i, In (n, i) (g_cr g) ->
+          (taken n <= length (chunks (sfs s) i))%nat /\
+          (n < cur -> taken n = length (chunks (sfs s) i) \/ lookup (dir (sfs s)) n = None) /\
+          (cur < n -> taken n = O))) /\
+    (forall now ar i r', lookup (dir (sfs s)) head_name = Some i ->
+       fst (fst (restart (mk_cfg h true ar true) (sfs s) now)) = Some r' ->
+       let g' := gstep h s g (OOpen o now true ar true) in
+       g_got g' o = filter (fun e => fst e <=? head_name_of (sfs s)) (fst (g_saved g)) /\
+       g_sync g' o = snd (g_saved g) /\ g_saved g' = g_saved g) /\
+    (forall p, saves s (OSave o) = Some p -> g_saved (gstep h s g (OSave o)) = (g_got g o, g_sync g o)) /\
+    (forall k part p, saves s (OCrashSave o k part) = Some p ->
+       g_saved (gstep h s g (OCrashSave o k part)) = (if 4 <=? k then (g_got g o, g_sync g o) else g_saved g)).
+Proof.
+  intros h ops o Hfn Hfr Hops s g. split; [|split; [|split]].
+  - intros Hm. exact (proj2 (exactly_once h ops o Hfn Hfr Hops Hm)).
+  - intros now ar i r'. apply restart_ghost.
+  - intros p. apply save_ghost.
+  - intros k part p. apply crash_ghost.
+Qed.
+Print Assumptions C14_no_skip_partial.
+
+(* non-vacuity: a history with a completed save, a save that dies in the middle of its write, one that
+   dies after the rename, restarts, and writes in between; the invariant's premises hold ([g_mono],
+   [g_sync] of the restarted reader) and the reader ends up having been handed every record *)
+Definition c14_hdr : hdr := (2, 8, 40, (true, true)).
+Definition c14_ops : list op :=
+  [OOpen false 1 false false false; OWrite false (Some 10) 2 (PGen 0 1 4); OWrite false (Some 11) 3 (PGen 0 2 4);
+   OOpen true 20 true true true; ORead true false; OSave true; ORead true false; OCrashSave true 2 1;
+   OOpen true 21 true true true; ORead true false; OWrite false (Some 12) 4 (PGen 0 3 4); OClose true;
+   OOpen true 22 true false true; ORead true false; OCrashSave true 4 0; OOpen true 23 true true true; ORead true false].
+
+Theorem C14_nonvacuous :
+  fixn_of c14_hdr = true /\ fixr_of c14_hdr = true /\ ops_okg c14_hdr c14_ops /\
+  g_mono (snd (greach c14_hdr c14_ops)) = true /\ g_sync (snd (greach c14_hdr c14_ops)) true = true /\
+  map snd (g_got (snd (greach c14_hdr c14_ops)) true) = map snd (g_hist (snd (greach c14_hdr c14_ops))) /\
+  hpos (sfs (fst (greach c14_hdr (firstn 8 c14_ops)))) = Some (enc_head (PAt 10 (Some 5))) /\
+  hpos (sfs (fst (greach c14_hdr (firstn 15 c14_ops)))) = Some (enc_head (PAt 12 (Some 5))) /\
+  snd (step c14_hdr (reach c14_hdr (firstn 9 c14_ops)) (ORead true false)) = RRec [50; 120; 120; 120].
+Proof.
+  split; [reflexivity|]. split; [reflexivity|].
+  split; [unfold ops_okg, c14_ops; repeat (constructor; [split; [solve_op_ok|cbn; try exact I; right; vm_compute; intuition discriminate]|]); constructor|].
+  repeat split; vm_compute; reflexivity.
+Qed.
+Print Assumptions C14_nonvacuous.
